@@ -133,7 +133,7 @@ func gen(t *rapid.T) Case {
 		c.LogName = "user_a"
 	}
 	c.Validity = rapid.SampledFrom([]uint64{1, 2, 59, 3599, 3600, 43200, 86400, 1 << 31, 315360000, 0, 1<<32 - 1, 1 << 32, 1<<32 + 600, 9999999999, 1 << 40, 1 << 53}).Draw(t, "validity")
-	if c.Validity == 0 {
+	if c.Validity == 0 && rapid.IntRange(0, 3).Draw(t, "explicitZero") != 0 { // otherwise: an explicit "cert_validity_sec": 0 (configured, not left out)
 		c.Validity = rapid.Uint64Range(1, 315360000).Draw(t, "validityAny")
 	}
 	c.OmitValidity = rapid.IntRange(0, 9).Draw(t, "omitValidity") == 0
